@@ -3,4 +3,16 @@ from ..contracts import totals as K
 
 
 def run(tier):
-    return [deductive.verify_function(rel, q, c, hooks=K.hooks_for(c)) for rel, q, c in K.ITEMS]
+    reps = [deductive.verify_function(rel, q, c, hooks=K.hooks_for(c)) for rel, q, c in K.ITEMS]
+    # the constructor half of "the installed model carries the total in force": the three model classes store their `total`
+    # argument as self.total (GraphicalModel: pv/contracts/gminit.py; RegionGraph, FactorGraph: pv/contracts/oraclewire.py)
+    from ..contracts import gminit as GI
+    rel, q, c = GI.ITEM
+    reps.append(deductive.verify_function(rel, q, c))
+    from ..contracts import oraclewire as OW
+    for rel, q, c in OW.ITEMS:
+        if q.endswith('.__init__'):
+            reps.append(deductive.verify_function(rel, q, c, hooks=OW.hooks_for(c), prefix='%s::%s[stores its arguments]' % (rel, q)))
+    reps.append(OW.frame_report())
+    reps += OW.fg_frame_reports()
+    return reps
